@@ -122,7 +122,13 @@ class Device(object):
             self.attrs = [dict.__getitem__(tags, bytes(bytearray(tg["name"])).decode("iso-8859-1")).attribute for tg in cfg["tags"]]
         self.tags = tags
         kw = {}
-        if pers is not None and pers["k"] != "any":
+        if pers is not None and pers["k"] == "routing":
+            table = dict(pers["route"])                   # {"<port>/<link>": "host:port"}: requests routed to a remote device
+
+            class UCMM(ucmm_mod.UCMM):                    # as a [UCMM] Route configuration does
+                route = table
+            kw["UCMM_class"] = UCMM
+        elif pers is not None and pers["k"] != "any":
             rp = False if pers["k"] == "simple" else route_py(pers["segs"])
 
             class UCMM(ucmm_mod.UCMM):          # as main() does for --route-path / --simple
